@@ -402,6 +402,9 @@ pub fn check_fault_free(scn: &Scenario, o: &Outcome) -> Option<Violation> {
                 let enc = url::Url::from_file_path(format!("/{p}")).map(|u| u.path()[1..].to_string()).unwrap_or_default();
                 o.stderr.contains(&format!("$WS/{p}")) || o.stderr.contains(&format!("$WS/{enc}"))
             };
+            // (an import may also spell the module in a way neither form covers - an escape,
+            // a doubled separator, a fragment: any locator inside the workspace will do)
+            let named = |p: &String| named(p) || o.stderr.contains("file://$WS/");
             if matches!(phase, Phase::Syntax | Phase::Compile | Phase::Eval) && !scn.files.keys().any(named) {
                 return v("diagnostic-not-located", format!("sources fail at {phase:?} ({msg}); stderr names no source: {}", o.stderr.chars().take(300).collect::<String>()));
             }
@@ -722,8 +725,10 @@ fn gen_fault(scn: &Scenario, o0: &Outcome, rng: &mut Rng) -> Fault {
         7 => Fault::CrashAt(rng.below(calls.len() + 2)),
         8 => {
             // a file that is opened twice (the CLI re-reads it to render a report)
+            // (only for rejected sources: there the second open is the re-read for the report;
+            // accepted sources open a file twice only when two spellings name it)
             let twice: Vec<&String> = sources.iter().filter(|p| calls.iter().filter(|(o, q)| o == "open" && q == *p).count() >= 2).collect();
-            if let Some(p) = twice.first() {
+            if let (Some(p), true) = (twice.first(), reference(scn).is_err()) {
                 let alt = if rng.chance(1, 2) { String::new() } else { "let x = num;\n".to_string() };
                 return Fault::Flip { path: (*p).clone(), alt };
             }
